@@ -13,7 +13,10 @@ import os
 import subprocess
 import sys
 
-REPO = "/repo"
+# The change is applied to a scratch worktree of /repo's HEAD (never to /repo itself), so that
+# other checks can keep running against /repo meanwhile; ./check is pointed at it with VERIF_REPO.
+SRC = "/repo"
+REPO = os.environ.get("SEED_WORKTREE", "/tmp/vt-seed-worktree")
 VERIF = os.path.dirname(os.path.dirname(os.path.abspath(__file__)))
 
 
@@ -40,6 +43,13 @@ def main():
         tier = args[i + 1]
         del args[i : i + 2]
     patch, demo, checks = args[0], args[1], args[2:]
+    if not os.path.isdir(REPO):
+        rc, out = sh(["git", "-C", SRC, "worktree", "add", "--detach", REPO, "HEAD"])
+        if rc != 0:
+            print(out)
+            return 2
+    head = sh(["git", "-C", SRC, "rev-parse", "HEAD"])[1].strip()
+    sh(["git", "-C", REPO, "checkout", "-q", "--detach", head])
     rc, out = sh(["git", "-C", REPO, "status", "--porcelain"])
     if out.strip():
         print("refusing: /repo working tree is not clean:\n" + out)
@@ -56,14 +66,15 @@ def main():
         summary["demo_exit_with_change"] = run_demo(demo)
         detected = {}
         for cid in checks:
-            rc, out = sh([os.path.join(VERIF, "check"), cid, "--tier", tier], cwd=VERIF, timeout=7200)
+            env = dict(os.environ, VERIF_REPO=REPO, VERIF_OUT=REPO + "-out")
+            rc, out = sh([os.path.join(VERIF, "check"), cid, "--tier", tier], cwd=VERIF, env=env, timeout=7200)
             v = [l for l in out.splitlines() if l.startswith("VIOLATION")]
             fps = [l.strip() for l in out.splitlines() if l.strip().startswith("fingerprint:")]
             detected[cid] = {"exit": rc, "violations": len(v), "fingerprints": fps[:4]}
         summary["checks"] = detected
     finally:
         sh(["git", "-C", REPO, "checkout", "--", "."])
-        sh("rm -rf %s/replays" % VERIF)
+        pass
     summary["demo_exit_without_change"] = run_demo(demo)
     rc, out = sh(["git", "-C", REPO, "status", "--porcelain"])
     summary["repo_clean_after"] = not out.strip()
